@@ -113,6 +113,7 @@ type leakCase struct {
 	Memfd      bool   `json:"memfd"`
 	Profile    string `json:"profile"`
 	Hoarder    bool   `json:"hoarder_goroutine"`
+	FenceEvery bool   `json:"settle_after_every_step"`
 }
 
 type leakLayout struct {
@@ -159,6 +160,7 @@ func genLeakCase(c *checkCtx, idx int) leakCase {
 	if cs.Mode == "single" {
 		cs.Workers = 1
 		cs.Steps = 300
+		cs.FenceEvery = rng.Intn(2) == 0
 	} else {
 		cs.Workers = 2 + rng.Intn(7)
 		cs.Steps = 150
@@ -229,6 +231,7 @@ type leakWorker struct {
 	single  bool
 
 	firstUnaccounted int // step index after which unaccounted slots first appeared (single mode), -1 none
+	lastClean        int // last step after which the accounting was still complete
 	unaccountedInfo  string
 	crossW, crossR   bool
 	hostileN         int
@@ -671,12 +674,15 @@ func (w *leakWorker) settle() bool {
 		w.aborted = "pair did not quiesce after step " + fmt.Sprint(len(w.hist)-1)
 		return false
 	}
+	opIdx := len(w.hist) - 1
 	w.claimAccepted()
 	if w.firstUnaccounted < 0 {
 		inUse, acc, detail := w.x.accounting(w)
 		if inUse > acc {
-			w.firstUnaccounted = len(w.hist) - 1
+			w.firstUnaccounted = opIdx
 			w.unaccountedInfo = fmt.Sprintf("in use %d slots, reachable from live streams and the hoard %d (%s)", inUse, acc, detail)
+		} else {
+			w.lastClean = opIdx
 		}
 	}
 	return true
@@ -731,6 +737,29 @@ func (w *leakWorker) queueFullEpisode() {
 	}
 }
 
+// raceCloseFlush: one end closes and, before the peer's event loop has seen the notification, the peer flushes: the data
+// arrives for a stream that no longer exists (client: recycled by the poller; server: re-created as a zombie).
+func (w *leakWorker) raceCloseFlush() {
+	var c []*leakSlot
+	for _, sl := range w.slots {
+		if sl.ends[0] != nil && sl.ends[1] != nil && !sl.closed[0] && !sl.closed[1] && !sl.pooled &&
+			sl.ends[0].IsOpen() && sl.ends[1].IsOpen() {
+			c = append(c, sl)
+		}
+	}
+	if len(c) == 0 {
+		return
+	}
+	sl := c[w.rng.Intn(len(c))]
+	closer := w.rng.Intn(2)
+	if sl.ends[1-closer].sendBuf.Len() == 0 || w.rng.Intn(2) == 0 {
+		w.opWrite(sl, 1-closer, w.pickSize())
+	}
+	w.opClose(sl, closer)
+	w.opFlush(sl, 1-closer, 0)
+	w.hist[len(w.hist)-1].Note += " (right after the peer's close)"
+}
+
 func (w *leakWorker) step() {
 	x := w.x
 	r := w.rng.Intn(100)
@@ -739,6 +768,8 @@ func (w *leakWorker) step() {
 	case r < 8 || live == 0:
 		if live < w.maxOpen {
 			w.opOpen(w.rng.Intn(2) == 0)
+		} else if w.hasPooled() {
+			w.opOpen(true)
 		}
 	case r < 36:
 		side := w.rng.Intn(2)
@@ -799,14 +830,16 @@ func (w *leakWorker) step() {
 		if c := w.openSlots(0, false); len(c) > 0 {
 			w.opPoolPut(c[w.rng.Intn(len(c))])
 		}
-	case r < 96:
+	case r < 95:
 		if w.single {
 			w.opHoard()
 		}
-	case r < 98:
+	case r < 97:
 		if w.single && x.cs.QueueCap <= 8 {
 			w.queueFullEpisode()
 		}
+	case r < 99:
+		w.raceCloseFlush()
 	default:
 		w.claimAccepted()
 	}
@@ -822,11 +855,21 @@ func (w *leakWorker) closeEverything() {
 		w.hoard = nil
 		w.rec("unhoard", nil, 0, 0, "")
 	}
-	order := w.rng.Perm(len(w.slots) * 2)
-	for _, v := range order {
-		sl, side := w.slots[v/2], v%2
-		if sl.ends[side] != nil && !sl.closed[side] {
-			w.opClose(sl, side)
+	for {
+		closedAny := false
+		order := w.rng.Perm(len(w.slots) * 2)
+		for _, v := range order {
+			sl, side := w.slots[v/2], v%2
+			if sl.ends[side] != nil && !sl.closed[side] {
+				w.opClose(sl, side)
+				closedAny = true
+				if w.single && w.x.cs.FenceEvery && w.aborted == "" {
+					w.settle() // exact attribution: which close left slots behind (may also attach zombies: hence the outer loop)
+				}
+			}
+		}
+		if !closedAny {
+			break
 		}
 	}
 	for {
@@ -971,6 +1014,9 @@ func (x *leakExec) accounting(w *leakWorker) (inUse, accounted int, detail strin
 	send, recv, pinned, pending := 0, 0, 0, 0
 	for _, st := range all {
 		send += countList(st.sendBuf.sliceList)
+		if st.getStreamState() == uint32(streamClosed) {
+			continue // a closed end may only hold what was written on it afterwards; nothing else it refers to is legitimate
+		}
 		recv += countList(st.recvBuf.sliceList)
 		pinned += countList(st.sendBuf.pinnedList) + countList(st.recvBuf.pinnedList)
 		st.pendingData.Lock()
@@ -1206,7 +1252,7 @@ func runLeakCase(c *checkCtx, cs leakCase) (res leakResult) {
 	if cs.Mode == "single" {
 		w := res.workers[0]
 		nextCP := 15 + w.rng.Intn(60)
-		for len(w.hist) < cs.Steps && w.aborted == "" {
+		for it := 0; it < cs.Steps && w.aborted == ""; it++ {
 			func() {
 				defer func() {
 					if r := recover(); r != nil {
@@ -1214,7 +1260,7 @@ func runLeakCase(c *checkCtx, cs leakCase) (res leakResult) {
 					}
 				}()
 				w.step()
-				if w.rng.Intn(10) < 6 {
+				if cs.FenceEvery || w.rng.Intn(10) < 6 {
 					w.settle()
 				}
 			}()
@@ -1278,7 +1324,7 @@ func runLeakCase(c *checkCtx, cs leakCase) (res leakResult) {
 					w.aborted = fmt.Sprintf("panic in step %d of worker %d: %v\n%s", len(w.hist), w.id, r, debug.Stack())
 				}
 			}()
-			for len(w.hist) < cs.Steps {
+			for it := 0; it < cs.Steps; it++ {
 				w.step()
 				if w.rng.Intn(4) == 0 {
 					w.claimAccepted()
@@ -1421,8 +1467,9 @@ func checkLeak(c *checkCtx) {
 				o := w.hist[w.firstUnaccounted]
 				wit["first_unaccounted_after_step"] = o
 				wit["first_unaccounted_detail"] = w.unaccountedInfo
-				msg += fmt.Sprintf("; slots no live stream refers to first appeared after step %d (%s slot %d %s arg %d -> %s %s): %s",
-					o.N, o.Op, o.Slot, o.Side, o.Arg, o.Res, o.Note, w.unaccountedInfo)
+				wit["accounting_complete_until_step"] = w.lastClean
+				msg += fmt.Sprintf("; slots that no live stream refers to appeared between step %d (accounting still complete) and step %d (%s slot %d %s arg %d -> %s %s): %s",
+					w.lastClean, o.N, o.Op, o.Slot, o.Side, o.Arg, o.Res, o.Note, w.unaccountedInfo)
 			}
 		}
 		wit["histories"] = hists
